@@ -21,6 +21,8 @@ LEANFILES = ['PnVerif/Model/IdTable.lean', 'PnVerif/Lemmas/IdTable.lean', 'PnVer
 KINDS_ANY = ['NDIMS', 'NVARS', 'DEFDIM', 'DEFVAR', 'PUTATT', 'ENDDEF', 'REDEF', 'SYNC', 'INQPATH', 'INQFORMAT']
 PROBE_KINDS = KINDS_ANY + ['CLOSE', 'ABORT', 'IPUTFX', 'SETUP', 'ATTACH', 'DETACH', 'INQATT', 'GETVAR', 'WAITALL', 'BEGININDEP']
 ZERO_LEAK = 'malloc=0 type=0 comm=0 info=0 file=0'
+# every API form of a request that transfers nothing (zero-length / rejected arguments); the list is read from the harness
+ZFORMS = re.findall(r'F\("([A-Z0-9_]+)"\)', open(os.path.join(os.path.dirname(os.path.dirname(os.path.abspath(__file__))), 'harness/c17_life.c')).read())
 
 
 def clean(out):
@@ -145,6 +147,12 @@ class Gen:
         r = self.rng
         f = self.open[ncid]
         pend = f['pget'] + f['pput']
+        if f['io'] and not f['indef'] and r.chance(1, 4):
+            # a request that transfers nothing: zero-length or rejected for its arguments, in any API form
+            forms = [z for z in ZFORMS if not (f['rdonly'] and ('PUT' in z or z.startswith('BP_') or 'VAR1' in z))]
+            self.send('ZREQ %d %s' % (ncid, r.choice(forms)))
+            self.count('zreq')
+            return
         if f['io'] and not f['indef'] and r.chance(2, 3):
             # nonblocking requests on fixed / record variables, large (8 KiB, byte-swapped in place) / small buffers
             kinds = ['IGET fx', 'IGET sm'] + (['IGET rc', 'IGET rs'] if f['nrecs'] else [])
@@ -274,6 +282,14 @@ def directed(nmax):
                                           'DETACH 0', 'CLOSE 0', 'LEAK'], 'leak-attach-without-detach'))
     S.append(('pending-wait-detach-close', io + ['ATTACH 0', 'IOP 0 BPUT fx', 'IOP 0 IGET fx', 'IOP 0 BPUT rc', 'WAITALL 0', 'DETACH 0', 'IOP 0 IGET rc',
                                                  'IOP 0 IPUT rc', 'CLOSE 0', 'LEAK'], None))
+    # requests that transfer nothing, every API form: all in one session (with and without requests pending / buffer attached) ...
+    S.append(('zero-length-all-forms', io + ['ZREQ 0 %s' % z for z in ZFORMS] + ['IOP 0 IGET fx', 'IOP 0 IPUT sm', 'ATTACH 0', 'IOP 0 BPUT sm'] +
+              ['ZREQ 0 %s' % z for z in ZFORMS] + ['WAITALL 0', 'DETACH 0', 'CLOSE 0', 'LEAK'], None))
+    # ... and each form on its own, followed by the close of the last file and the balance
+    L = io + ['CLOSE 0', 'LEAK']
+    for z in ZFORMS:
+        L += ['OPEN 0 1', 'ZREQ 0 %s' % z, 'CLOSE 0', 'LEAK']
+    S.append(('zero-length-each-form', L, None))
     # abort with pending requests
     S.append(('pending-abort', io + ['IOP 0 IGET fx', 'IOP 0 IPUT fx', 'IOP 0 IPUT rs', 'IOP 0 IGET sm', 'CREATE 1', 'ABORT 0', 'SNAP', 'CLOSE 1', 'LEAK'],
               'leak-abort-with-pending'))
@@ -402,10 +418,17 @@ def run_check(tier, seed):
                 prop_fail.append(dict(sig='life:crash:%s' % lines[k].split(' ')[0], what='harness process died (rc=%s) in script %s at request %d (%s); stderr %s'
                                       % (rc, name, k, lines[k], err[-300:]), script=lines[:k + 1]))
                 continue
+            last_z = None
             for i, line in enumerate(lines):
                 evals += 1
                 op = line.split(' ')[0]
                 impl, mod = co[i], answers[i]
+                if op == 'ZREQ':
+                    last_z = line.split(' ')[2]
+                    dist['zreq:' + last_z] = dist.get('zreq:' + last_z, 0) + 1
+                    nontrivial.add('zreq:%s:%s' % (last_z, name.rstrip('0123456789')))
+                elif op in ('OPEN', 'CREATE'):
+                    last_z = None if name == 'zero-length-each-form' else last_z
                 dist['op:' + op] = dist.get('op:' + op, 0) + 1
                 if op == 'PROBE':
                     nontrivial.add(line + '@' + ('open' if any(l.startswith(('CREATE', 'OPEN', 'FILL')) for l in lines[:i]) else ''))
@@ -421,9 +444,13 @@ def run_check(tier, seed):
                     if impl != mod:
                         tie_diffs.append(dict(script=name, index=i, line=line, impl=impl, model=mod))
                 elif op == 'LEAK':
+                    prev_leak = leak_seen.get(name, ZERO_LEAK)
                     leak_seen[name] = impl
-                    if impl != ZERO_LEAK:
-                        prop_fail.append(dict(sig=scen or ('leak:%s' % name.rstrip('0123456789')), what='after the last close of script %s the library still holds: %s' % (name, impl),
+                    if name == 'zero-length-each-form' and impl == prev_leak:
+                        pass        # nothing new since the previous balance of this script: already attributed to an earlier form
+                    elif impl != ZERO_LEAK:
+                        zsig = 'leak:after-request-that-transfers-nothing:%s' % last_z if (name == 'zero-length-each-form' and last_z) else None
+                        prop_fail.append(dict(sig=scen or zsig or ('leak:%s' % name.rstrip('0123456789')), what='after the last close of script %s the library still holds: %s' % (name, impl),
                                               script=lines, impl=impl))
                     elif scen:
                         log('[S4] note: scenario %s no longer leaks' % scen)
@@ -453,10 +480,10 @@ def run_check(tier, seed):
         V.cov['distinct_nontrivial'] = len(nontrivial)
         V.cov['traces_validated_against_impl'] = len(scripts) - len({t['script'] for t in tie_diffs})
         V.cov['rule'] = ('stream `life`: %d directed scripts (F1 replay, every API kind on stale/never-used/negative/huge ids, NC_MAX_NFILES=%d files open at once, '
-                         'NC_ENFILE, id reuse, close with pending iput, attach/detach, failing creates/opens incl. a 140-step truncated-header sweep) + %d random scripts x %d '
+                         'NC_ENFILE, id reuse, close/abort with pending get+put+bput requests, %d API forms of requests that transfer nothing (zero-length, argument errors; ZREQ) each followed by close + balance, attach/detach, failing creates/opens incl. a 140-step truncated-header sweep) + %d random scripts x %d '
                          'steps over up to 5 files (create/open/close/abort, calls in between, probes in forked children, SNAP after half of the steps; every 3rd '
                          'script on a dup of MPI_COMM_WORLD); each script = one singleton MPI process. non-trivial = distinct (probe, whether files are open) pair, or a '
-                         'distinct close/abort/failing-open/error-returning request' % (len(directed(nmax)), nmax, nscr, nops))
+                         'distinct close/abort/failing-open/error-returning request' % (len(directed(nmax)), nmax, len(ZFORMS), nscr, nops))
         V.cov['distribution'] = dict(sorted(dist.items()))
         V.cov['samples'] = scripts[0][1][:8] + scripts[-1][1][:12]
         V.cov['measured_resource_balance'] = dict(what='MEASURED, not a theorem: LEAK line after the last close of every script', scripts=len(leak_seen),
